@@ -285,7 +285,8 @@ class PointTier(textgrid_tier.TextgridTier):
                 elif point.time > end:
                     newEntries.append(Point(point.time - diff, point.label))
 
-            newMax = newTier.maxTimestamp - diff
+            # Rounding must not move the end of the tier before /start/
+            newMax = max(newTier.maxTimestamp - diff, start)
             newTier = newTier.new(entries=newEntries, maxTimestamp=newMax)
 
         return newTier
